@@ -21,6 +21,8 @@ ST = os.path.join(VERIF, "selftest")
 
 # (id, kind, source, [(rule, substring of the violation key)])
 CATALOG = [
+    ("rev-1935db3", "revert", "fix_1935db3.diff", [("R-ITERSTATE", "IteratorDictStringHRPDACBlocks/3#scanneable-unset")]),
+    ("rev-69c5c2a", "revert", "fix_69c5c2a.diff", [("R-CHUNKINIT", "StringDictionaryHASHHF::extractTable#input-budget-maxlength")]),
     ("rev-7838953", "revert", "fix_7838953.diff", [("R-STALEVAR", "SSA::locate#stale-local")]),
     ("rev-e3ad698", "revert", "fix_e3ad698.diff", [("R-TAGS", "missing:StringDictionaryHASHRPDACBlocks")]),
     ("rev-37096d0", "revert", "fix_37096d0.diff", [("R-EXTENT", "DAC_BVLS::levelsIndex")]),
